@@ -17,7 +17,7 @@
 EXTENDS Stats, TraceBase
 
 VARIABLES l,
-          col,     \* [ord, fw, utf8, badec, rep] of the open chunk
+          col,     \* [ord, fw, utf8, badec, rep, dictin, tci] of the open chunk
           cvals,   \* values of the pages seen so far
           pidx,    \* per page: [ci, min, max, nullpage] (column index entries)
           prows,   \* per page: rows
@@ -25,11 +25,11 @@ VARIABLES l,
 
 vars == <<l, col, cvals, pidx, prows, ploc>>
 
-Init == l = 1 /\ col = [ord |-> "signed", fw |-> 0, utf8 |-> FALSE, badec |-> FALSE, rep |-> FALSE] /\ cvals = <<>> /\ pidx = <<>>
+Init == l = 1 /\ col = [ord |-> "signed", fw |-> 0, utf8 |-> FALSE, badec |-> FALSE, rep |-> FALSE, dictin |-> FALSE, tci |-> 0] /\ cvals = <<>> /\ pidx = <<>>
         /\ prows = <<>> /\ ploc = <<>>
 
 New(ev) ==
-  /\ col' = [ord |-> ev.ord, fw |-> ev.fw, utf8 |-> ev.utf8, badec |-> ev.badec, rep |-> ev.rep]
+  /\ col' = [ord |-> ev.ord, fw |-> ev.fw, utf8 |-> ev.utf8, badec |-> ev.badec, rep |-> ev.rep, dictin |-> ev.dictin, tci |-> ev.tci]
   /\ cvals' = <<>> /\ pidx' = <<>> /\ prows' = <<>> /\ ploc' = <<>>
 
 (* a reported [min, max, exact flags, null count] against the values vs     *)
@@ -46,6 +46,19 @@ Reported(min, max, minx, maxx, nulls, vs) ==
 (* its number of rows equals its number of null values (identified by: a     *)
 (* repeated column, a page flagged null page that holds values, rows = nulls). *)
 (***************************************************************************)
+(* Dictionary input with write_row_group_number_distinct_values: the writer  *)
+(* counts distinct dictionary *keys* (identified by: an Arrow dictionary      *)
+(* column and a reported distinct count).                                    *)
+KFDistinct(ev) == IF col.dictin /\ ev.distinct >= 0 THEN "C07-distinct-count-of-dictionary-keys" ELSE ""
+(* UTF-8 column with column_index_truncate_length: the boundary order is      *)
+(* decided on the untruncated bounds, but character-boundary truncation is    *)
+(* not monotone (identified by: a UTF-8 column, a truncation length, a        *)
+(* declared ASCENDING / DESCENDING order).                                    *)
+KFBoundary(ev) ==
+  IF col.badec /\ ev.mixedlen THEN "C07-byte-array-decimal-unequal-length-order"
+  ELSE IF col.utf8 /\ col.tci > 0 /\ ev.order \in {"ASCENDING", "DESCENDING"}
+       THEN "C07-boundary-order-lost-by-utf8-truncation"
+  ELSE ""
 KF(ev) ==
   IF col.badec /\ ev.mixedlen THEN "C07-byte-array-decimal-unequal-length-order"
   ELSE IF ev.op = "page" /\ col.rep /\ ev.ci /\ ev.nullpage /\ ev.rows = ev.nulls /\ NonNull(ev.vals) # <<>>
@@ -88,8 +101,8 @@ ChunkOffsetsOk(ev) ==
 
 Chunk(ev) ==
   /\ JudgeKF(ChunkStatsOk(ev), l, "chunk statistics", KF(ev))
-  /\ Judge(ev.has => CountOk(ev.distinct, DistinctValues(cvals)), l, <<"distinct_count", ev.distinct>>)
-  /\ JudgeKF(ChunkBoundaryOk(ev), l, <<"boundary order", ev.order>>, KF(ev))
+  /\ JudgeKF(ev.has => CountOk(ev.distinct, DistinctValues(cvals)), l, <<"distinct_count", ev.distinct>>, KFDistinct(ev))
+  /\ JudgeKF(ChunkBoundaryOk(ev), l, <<"boundary order", ev.order>>, KFBoundary(ev))
   /\ Judge(ChunkOffsetsOk(ev), l, "offset index")
   /\ Judge(ev.hasbloom => (Len(ev.bloom) = Len(NonNull(cvals)) /\ BloomOk(ev.bloom)), l, "bloom filter misses a written value")
   /\ JudgeKF(ChunkConvOk(ev), l, "StatisticsConverter row group values", KF(ev))
